@@ -706,8 +706,44 @@ def ground_message_total():
     return [(f"extract_string_argument returns a message for every byte content ({n} strings): an assertion is evaluated whatever its log message holds", not bad, f"first failures (hex of the string, outcome): {bad[:2]}")]
 
 
+def ground_bytes_operand():
+    """the operands of assertEq(bytes,bytes) / (string,string) are read by extract_bytes_argument: a concrete length gives exactly that many bytes
+    (0, 1, 31, 32, 33, 64), a SYMBOLIC offset or length is given up with NotConcreteError (the path is flagged), never read as an empty operand"""
+    import halmos.utils as hu
+    from halmos.bytevec import ByteVec
+    from halmos.exceptions import NotConcreteError
+
+    out = []
+    bad = []
+    for n in (0, 1, 31, 32, 33, 64):
+        payload = bytes(range(1, n + 1))
+        data = ByteVec(b"\xaa" * 4 + (32).to_bytes(32, "big") + n.to_bytes(32, "big") + payload.ljust((n + 31) // 32 * 32, b"\x00"))
+        try:
+            got = hu.extract_bytes_argument(data, 0)
+            got = got.unwrap() if hasattr(got, "unwrap") else got
+            if got != payload:
+                bad.append((n, repr(got)[:40]))
+        except Exception as e:  # noqa
+            bad.append((n, f"{type(e).__name__}"))
+    out.append(("extract_bytes_argument returns exactly `length` bytes for concrete lengths 0, 1, 31, 32, 33, 64", not bad, str(bad[:3])))
+    res = []
+    for which in ("length", "offset"):
+        ln = z3.BitVec("len_word", 256)
+        words = [(32).to_bytes(32, "big") if which == "length" else z3.BitVec("off_word", 256), ln if which == "length" else (3).to_bytes(32, "big"), b"abc".ljust(32, b"\x00")]
+        data = ByteVec([b"\xaa" * 4] + words)
+        try:
+            got = hu.extract_bytes_argument(data, 0)
+            res.append((which, f"returned {got!r}"[:60]))
+        except NotConcreteError:
+            pass
+        except Exception as e:  # noqa
+            res.append((which, f"{type(e).__name__}: {e}"[:80]))
+    out.append(("a symbolic offset or length word of a bytes/string operand gives the path up with NotConcreteError (flagged), it is never read as an empty operand", not res, str(res)))
+    return out
+
+
 def grounds():
-    return [Ground(f"{PROP}/utils.extract_string_argument#total", ground_message_total, sources=("halmos.utils:extract_string_argument",)), Ground(f"{PROP}/assertions.assert_cheatcode_handler", ground_table, sources=()), Ground(f"{PROP}/cheatcodes.sig-constants", ground_sig_constants)]
+    return [Ground(f"{PROP}/utils.extract_bytes_argument", ground_bytes_operand, sources=("halmos.utils:extract_bytes_argument",)), Ground(f"{PROP}/utils.extract_string_argument#total", ground_message_total, sources=("halmos.utils:extract_string_argument",)), Ground(f"{PROP}/assertions.assert_cheatcode_handler", ground_table, sources=()), Ground(f"{PROP}/cheatcodes.sig-constants", ground_sig_constants)]
 
 
 ASSUMPTIONS = [
